@@ -17,6 +17,7 @@ import (
 	"github.com/libp2p/go-libp2p/core/record"
 	"github.com/libp2p/go-libp2p/p2p/host/peerstore/pstoreds/pb"
 	"github.com/libp2p/go-libp2p/p2p/host/peerstore/pstoremem"
+	"github.com/libp2p/go-libp2p/x/verif/seqmc"
 
 	ds "github.com/ipfs/go-datastore"
 	"github.com/ipfs/go-datastore/query"
@@ -359,7 +360,7 @@ func (in *c09Inst) memSnap() (string, c09MemStats) {
 		if e.InHeap {
 			h = "H"
 		}
-		es = append(es, fmt.Sprintf("%s.%s=%s/%s%s", c09PeerName(e.Peer), c09AddrName(e.Addr), c09TTLName(e.TTL), c09Rel(e.Expiry, now, e.TTL), h))
+		es = append(es, fmt.Sprintf("%s.%s=%s/%s%s", c09PeerName(e.Peer), c09AddrName(e.Addr), c09TTLName(e.TTL), c09Rel(e.Expiry, now, e.TTL), h+e.Extra))
 	}
 	for _, e := range s.Heap {
 		hs = append(hs, fmt.Sprintf("%s.%s", c09PeerName(e.Peer), c09AddrName(e.Addr)))
@@ -367,7 +368,7 @@ func (in *c09Inst) memSnap() (string, c09MemStats) {
 	for _, r := range s.Records {
 		rs = append(rs, fmt.Sprintf("%s:%d:%s", c09PeerName(r.Peer), r.Seq, c09EnvName(c09EnvCode(r.Envelope))))
 	}
-	return "E[" + c09SortedJoin(es) + "] H[" + c09SortedJoin(hs) + "] R[" + c09SortedJoin(rs) + "]",
+	return "E[" + c09SortedJoin(es) + "] H[" + c09SortedJoin(hs) + "] R[" + c09SortedJoin(rs) + "]" + s.Extra,
 		c09MemStats{entries: len(s.Entries), heap: len(s.Heap), peers: s.Peers, recs: len(s.Records)}
 }
 
@@ -439,12 +440,15 @@ func (in *c09Inst) dsSnap() (string, c09DSStats) {
 			if v.dirty {
 				d = "*"
 			}
-			cs = append(cs, "C:"+c09PeerName(k)+d+"["+c09RecStr(v.AddrBookRecord, nowUnix)+"]")
+			cs = append(cs, "C:"+c09PeerName(k)+d+"["+c09RecStr(v.AddrBookRecord, nowUnix)+"]"+seqmc.ExtraFields(v, "RWMutex", "AddrBookRecord", "dirty"))
 		}
 	}
 	w := "w=0"
 	if e := in.dsb.gc.currWindowEnd; e != 0 {
 		w = fmt.Sprintf("w=%+d", e-nowUnix)
 	}
+	// fields a later version adds to the book or its collector join the key (see seqmc.ExtraFields)
+	w += seqmc.ExtraFields(in.dsb, "ctx", "opts", "cache", "ds", "gc", "subsManager", "childrenDone", "cancelFn", "clock") +
+		seqmc.ExtraFields(in.dsb.gc, "ctx", "ab", "running", "lookaheadEnabled", "purgeFunc", "currWindowEnd")
 	return strings.Join(parts, " ") + " | " + c09SortedJoin(cs) + " | " + w, st
 }
